@@ -263,7 +263,8 @@ def run(chk, w):
             # &message[data_index + k] handed to a setter with a count: the callee reads at least one byte there
             for a in i.args:
                 if a.get("k") == "inst":
-                    ai = disp.resolve(rules.strip_casts(disp, a))
+                    a = rules.resolve_local(disp, rules.strip_casts(disp, a))      # `const uint8_t *const payload = &message[data_index + 2]; f(payload)`
+                    ai = disp.resolve(rules.strip_casts(disp, a)) if a.get("k") == "inst" else None
                     if ai is not None and ai.op == "getelementptr":
                         k = _msg_off(disp, a, D)
                         if k is not None:
@@ -275,6 +276,18 @@ def run(chk, w):
     for sw in D.switches:
         for cv, bb in sw["cases"]:
             targets[bb].append(cv & 0xff)
+    # `if (type == MSG_X) { ... }` outside the switch selects a type just like a case label
+    for b_ in disp.blocks:
+        t_ = b_.term
+        if t_.op == "br" and "cond" in t_.d and t_["t"] != t_.get("f"):
+            c_ = disp.resolve(t_["cond"])
+            if c_ is not None and c_.op == "icmp" and c_["pred"] in ("eq", "ne"):
+                cv_ = rules.const_of(disp, c_["b"])
+                src_ = rules.load_source(disp, c_["a"])
+                if cv_ is not None and src_ and src_[0] == "alloca" and disp.param_index_of_alloca(disp.insts[src_[1]]) == D.tparam:
+                    succ_ = t_["t"] if c_["pred"] == "eq" else t_["f"]
+                    if set(disp.bmap[succ_].pred) == {b_.id}:
+                        targets[succ_].append(cv_ & 0xff)
     for rid, (k, inst) in reads.items():
         best = None
         for bb, cvs in targets.items():
@@ -500,12 +513,40 @@ def _msg_off(disp, ptr, D):
         return None
     if iv.op == "load":
         a = disp.resolve(iv["ptr"])
-        if a is not None and a.op == "alloca" and a.get("var") == "data_index" or a is not None and a.op == "alloca":
+        if a is not None and a.op == "alloca" and _is_data_index_cell(disp, a, D):
             return 0
         return None
     if iv.op == "add":
         c = rules.const_of(disp, iv["b"])
         a0 = disp.resolve(rules.strip_casts(disp, iv["a"]))
         if c is not None and a0 is not None and a0.op == "load":
-            return c
+            a = disp.resolve(a0["ptr"])
+            if a is not None and a.op == "alloca" and _is_data_index_cell(disp, a, D):
+                return c
     return None
+
+
+def _is_data_index_cell(disp, a, D, depth=0):
+    """the local holds the position of the first data byte: it is assigned the result of a call that receives the message (or a copy of such a local).
+    `message[message[0]]` - an index loaded from the message itself - is the last byte of the message and always inside it."""
+    sts = [s for s in disp.all_insts() if s.op == "store" and s["ptr"].get("k") == "inst" and s["ptr"]["id"] == a.id]
+    if not sts:
+        return False
+    for s in sts:
+        v = disp.resolve(rules.strip_casts(disp, s["val"])) if s["val"].get("k") == "inst" else None
+        if v is None:
+            return False
+        if v.op == "call" and any(x.get("k") in ("inst", "arg") and ("param", D.mparam) in dispatch._deep_param(disp, x) for x in v.args):
+            continue
+        if v.op == "load" and depth < 3:
+            a2 = disp.resolve(v["ptr"])
+            if a2 is not None and a2.op == "alloca" and _is_data_index_cell(disp, a2, D, depth + 1):
+                continue
+        if v.op in ("add", "sub") and depth < 3:
+            a0 = disp.resolve(rules.strip_casts(disp, v["a"]))
+            if a0 is not None and a0.op == "load":
+                a2 = disp.resolve(a0["ptr"])
+                if a2 is not None and a2.op == "alloca" and _is_data_index_cell(disp, a2, D, depth + 1):
+                    continue
+        return False
+    return True
